@@ -193,12 +193,19 @@ def gen_netlist(rng):
     rng.shuffle(slots)
     nmod = rng.randrange(1, min(len(slots), 5) + 1)
     mods = []
+    # now and then ONE rigid module is drawn with a laxer limit than the die's, so that some of its rectangles may be
+    # thinner than the aspect-ratio limit allows: the input configuration then breaks the aspect clause (and only
+    # that one), and the system must say so although the rectangle is pinned
+    over = rng.random() < 0.12
     for k in range(nmod):
         kind = rng.choice(["soft", "soft", "soft", "hard", "hard", "fixed"])
         force = None
         if k == 0 and rng.random() < 0.3:
             force = ["NORTH", "SOUTH", "EAST", "WEST"][:rng.randrange(2, 5)]
-        rects, roles = gen_module(rng, kind, slots[k], q, ratio, force)
+        rr = ratio
+        if over and kind in ("hard", "fixed"):
+            rr, over = ratio * 4, False
+        rects, roles = gen_module(rng, kind, slots[k], q, rr, force)
         m = {"name": "M%d" % k, "kind": kind, "rects": rects, "slot": list(slots[k]),
              "intfmt": rng.random() < 0.7}
         if kind == "soft":
@@ -920,6 +927,12 @@ def add_configs(rng, case, nconf):
         push(inp, rng.choice(TIMES[1:]), "input")
     else:
         case["input_not_legal"] = True
+        # an input that breaks exactly one clause by a clear margin is a configuration of the property's quantifier too
+        for t in (200, 60):
+            delta = F(eps_of_time(t)) + F(1, 1000000)
+            cl = classify(net, inp, delta, tau)
+            if cl is not None and cl[0] != "legal":
+                push(inp, t, cl[0])
     tries = 0
     while len(configs) < nconf and tries < nconf * 12:
         tries += 1
